@@ -5,6 +5,16 @@ ROOT = os.path.dirname(os.path.dirname(os.path.abspath(__file__)))
 PROPS = [json.loads(l)["id"] for l in open(os.path.join(ROOT, "properties.jsonl"))]
 
 CLAIMED = {
+ "C14": dict(
+   text="Coq theorems (Props/C14.v) over the Gallina model of bsplev_single_f64 / bspldnev_single_f64 (every short-circuit, the right-end-point rule with the ORIGINAL order, zero-width guards, index aborts): for EVERY order k >= 1, every admissible knot vector (non-decreasing, k-fold right end knot; weaker than the property's class), every basis index, derivative order and point of the domain — interior knots and the right end point included — the value is the Cox-de Boor piece polynomial of the point's span; non-negativity, support, partition of unity, m >= k => 0, and the returned m-th derivative is the m-th derivative (Coquelicot is_derive_n) of that piece, i.e. the derivative from the right (from the left at the right end point). Tied to spline.rs on every run by a seeded bit-level differential run (orders 1-6, repeated interior knots, zero-width spans, every knot and end point).",
+   note="Theorems over R (rounding outside). The one-sided derivative is formalised as the ordinary derivative of the span's piece polynomial, which the code equals on the whole span by C14_value. Axioms: stdlib reals (+ constructive_indefinite_description through the NumR instance only).",
+   tech="Coq proof (induction on order / derivative order, Coquelicot derivatives, refinement of the outcome-monadic model to piece polynomials) + seeded model-vs-code correspondence",
+   ref="DESIGN.md §4 C14"),
+ "C15": dict(
+   text="Coq theorems (Props/C15.v) over the Gallina models of PPSpline::csolve / bsplmatrix / ppdnev_single(_dual/_dual2) / mapped_value and of fdsolve: csolve errs exactly on mismatched site/value counts; the solved spline reproduces every interior datum and meets the derivative conditions at the two end sites (rows of B c = y; at R only non-singularity of the collocation matrix is assumed, discharged through C13); for Dual / Dual2 data the sensitivity of any value or derivative to each datum equals the spline solved on the corresponding unit data (linearity proved through the solver loops, lsq branch included, no matrix hypothesis); evaluation at a Dual / Dual2 abscissa returns the spline's own first and second derivatives as sensitivities as coded; the 3x3 kind table with its two refusing cells; Marsden's identity for every order and polynomial reproduction for every p = sum a_q (x - tau_q)^(k-1). Tied to spline.rs by a seeded bit-level differential run incl. a polynomial oracle on the real code.",
+   note="C15_poly is `_partial`: that the shifted powers (x - tau)^(k-1) span all polynomials of degree < k (a Vandermonde argument) is not formalised; monomial data of every degree < k is instead TESTED in the correspondence run against the real code (labelled as a test). Theorems over R; dual inputs assumed well-formed. Depends on the C13 lemmas (LinalgT.fdsolve21_correct, LinalgI.nonsingular_R).",
+   tech="Coq proof (homomorphism lemma through the elimination loops, refinement via the C03 lemmas, uniqueness via C13, Marsden identity by induction) + seeded model-vs-code correspondence incl. polynomial oracle",
+   ref="DESIGN.md §4 C15"),
  "C13": dict(
    text="Coq theorems (Props/C13.v, 21 theorems) over the Gallina model of dsolve / fdsolve (argabsmax with last-maximum tie-breaking, row and element swaps, the elimination loops with explicit zeroing, back substitution, the least-squares branch via A^T A and A^T b): over an ARBITRARY commutative ring with a partial inverse on units and for any pivot comparison, the returned vector satisfies A x = b and is the unique solution whenever every selected pivot is a unit; with allow_lsq it uniquely satisfies the normal equations; permuting the rows of (A|b) does not change the answer; non-square without lsq is refused. Instantiated at R (where 'non-singular' — trivial kernel — is PROVED to imply the pivot hypothesis for the code's |.| comparison) and at first- and second-order dual-number rings (value + derivative per name + half-Hessian per pair, truncated product), where the ring equation IS the statement about the value and every first and second derivative carried by A and b; the pivot hypothesis on a dual-valued matrix is the one on its real-part matrix; fdsolve (float matrix, generic rhs) likewise. Tied to linalg_dual.rs / linalg_f64.rs by a seeded differential run (sizes 1-8, tall to 12x6, f64/Dual/Dual2 in all mixes, pivot-forcing sparsity patterns, ties, singular and mis-shaped inputs) plus residual and row-permutation oracles on the real code.",
    note="Floating-point rounding is in the trusted base (theorems over exact rings). The dual-number ring instances are the abstract value/derivative-per-name structures; their tie to the concrete list-based Dual/Dual2 of the code is the refinement proved for C03 (Proofs/DualP.v, Dual2P.v). Axioms: stdlib real-number axioms, functional extensionality, and constructive_indefinite_description only through the NumR instance. NaN entries (argabsmax unwraps partial_cmp) are outside 'well-conditioned' and not generated.",
